@@ -225,6 +225,69 @@ def resolve_copy_(defs, e):
 
 
 def check(ctx):
+    ctx.rule("R10", "a cached code object is used only straight out of the validating loader of *this* call: every code object a user of the script cache (codecache.run_script_with_cache, the import hook) returns or runs without compiling is the result of script_cache_check in the same call - none is served from state kept on an object or in a module (a memo of unmarshalled entries skips the source-mtime comparison: edit + reload runs the old code)", floor=2)
+    _no_memo_of_entries(ctx)
+    try:
+        _check_main(ctx)
+    except AnalysisError as e_:
+        if not ctx.violations:
+            raise
+        ctx.note(f"analysis not completed next to reported violations: {e_}")
+
+
+def _no_memo_of_entries(ctx):
+    n = 0
+    for rel in (CC, "xonsh/imphooks.py"):
+        mod = ctx.repo.module(rel)
+        for q, fn0 in mod.functions():
+            if q == "script_cache_check":
+                continue
+            fn = flat(ctx, fn0, 2, skip=("script_cache_check", "compile_code", "update_cache", "get_source", "run_compiled_code"))
+            if not any((call_name(c) or "").split(".")[-1] == "script_cache_check" for c in calls_in(fn)):
+                continue
+            if any(getattr(stmt_of(c), "_xv_from", None) for c in calls_in(fn) if (call_name(c) or "").split(".")[-1] == "script_cache_check") and not any((call_name(c) or "").split(".")[-1] == "script_cache_check" for c in calls_in(fn0)):
+                pass  # the loader is called in a helper: judged here, in the caller's view
+            defs = df.all_defs(fn)
+            # names that hold a code object: second element of the loader's result, results of compile*
+            def roots(e, depth=0, seen=frozenset()):
+                """where a value is *held*: state roots (self.X / module-level containers) reached through copies, item / attribute
+                access and dict lookups - the arguments of ordinary calls are inputs, not holders"""
+                if depth > 8 or e is None:
+                    return set()
+                if isinstance(e, ast.Name):
+                    if e.id in seen:
+                        return set()
+                    ds = [d for d in defs.get(e.id, []) if d.value is not None]
+                    if not ds:
+                        return {"module:" + e.id} if e.id in mod.assigns and e.id.startswith("_") else set()
+                    out = set()
+                    for d in ds:
+                        out |= roots(d.value, depth + 1, seen | {e.id})
+                    return out
+                if isinstance(e, ast.Attribute):
+                    return {"state:" + unparse(e)} if unparse(e.value) == "self" else roots(e.value, depth + 1, seen)
+                if isinstance(e, (ast.Subscript, ast.Starred)):
+                    return roots(e.value, depth + 1, seen)
+                if isinstance(e, ast.Call) and isinstance(e.func, ast.Attribute) and e.func.attr in ("get", "pop", "setdefault", "__getitem__", "copy"):
+                    return roots(e.func.value, depth + 1, seen)
+                if isinstance(e, (ast.Tuple, ast.List)):
+                    out = set()
+                    for x in e.elts:
+                        out |= roots(x, depth + 1, seen)
+                    return out
+                if isinstance(e, ast.IfExp):
+                    return roots(e.body, depth + 1, seen) | roots(e.orelse, depth + 1, seen)
+                return set()
+
+            for r in [r for r in walk_local(fn) if isinstance(r, ast.Return) and r.value is not None and not (isinstance(r.value, ast.Constant))]:
+                state = sorted(roots(r.value))
+                n += 1
+                ctx.ob("R10", f"{rel}:{q}", f"`{short(r, 50)}`: what is handed out is not held in state kept across calls", not state, key=f"{q}|code-object-from-state", where=loc(r), detail=f"held in {state}" if state else None)
+    if n < 2:
+        raise AnalysisError(f"{CC}: users of script_cache_check not found ({n})")
+
+
+def _check_main(ctx):
     ctx.not_decided += [
         "mtime granularity (edit within the same timestamp tick)",
         "md5 collisions; marshal's robustness on corrupt streams that happen to decode",
